@@ -107,7 +107,9 @@ CHECKS = {
             "tied to the code by running both on exhaustive key sets over the property's 8-character alphabet and "
             "random values (control characters, combining characters, integer extremes, floats); an independent "
             "Python implementation of OLPC canonical JSON is the oracle that turns a correspondence break into a "
-            "failing input. Partial: the injectivity clause is searched for collisions, not yet proved.",
+            "failing input. Injectivity (C11_only_of_it): for every normalisation function and all values, two values have "
+            "the same canonical form iff they agree after normalising strings and names and sorting members at every "
+            "depth; collisions are also searched for in the runs.",
             NOTE + " Modelled not verified: serde_json's Serializer event order and string splitting, Unicode NFC "
             "(parameter with hypotheses nfc_ok, tested against unicodedata).", "5/C11"),
     "C13": ("Coq proofs about deserialize_keys (sound, complete, refuses any wrong or repeated identifier), hex and DER "
